@@ -222,6 +222,7 @@ type srvWorld struct {
 	restartSeq int // seq at which the server was started again on a fresh channel (-1)
 	qpoints   []int // sequence numbers of the quiescent points seen so far
 	status    *jrpc2.ServerStatus
+	observers []*statusObs // further WaitStatus / Wait callers (C08)
 	waitSeq   int
 }
 
@@ -1326,4 +1327,61 @@ func sortedKeys[M ~map[string]V, V any](m M) []string {
 	}
 	sort.Strings(ks)
 	return ks
+}
+
+// statusObs is one more caller of WaitStatus (or Wait) besides the harness's
+// main waiter: a program may well have several (server.Loop and the
+// application, say).
+type statusObs struct {
+	Name   string
+	UseErr bool // calls Wait() instead of WaitStatus()
+	Done   bool
+	St     jrpc2.ServerStatus
+	Err    error
+	Seq    int
+}
+
+func (w *srvWorld) observe(name string, useErr bool, delay int) {
+	o := &statusObs{Name: name, UseErr: useErr}
+	w.observers = append(w.observers, o)
+	w.r.Sim.Spawn(name, func() {
+		rt.Block("obs:started", func() bool { return w.started })
+		for i := 0; i < delay; i++ {
+			rt.Yield("obs:delay")
+		}
+		if useErr {
+			o.Err = w.srv.Wait()
+		} else {
+			o.St = w.srv.WaitStatus()
+			o.Err = o.St.Err
+		}
+		o.Seq = w.seq()
+		o.Done = true
+		w.r.Ev("observer", name, 0, 0, fmt.Sprintf("%+v %v", o.St, o.Err))
+	})
+}
+
+// checkObservers: every caller of WaitStatus / Wait gets the same report.
+func (w *srvWorld) checkObservers() {
+	r := w.r
+	if w.status == nil {
+		return
+	}
+	for _, o := range w.observers {
+		if !o.Done {
+			r.Fail("waitstatus-never-returned", "%s: a second caller of WaitStatus/Wait has not returned although the server has ended (status %+v)", o.Name, *w.status)
+			return
+		}
+		if o.UseErr {
+			if o.Err != w.status.Err {
+				r.Fail("wrong-status", "%s: Wait returned %v but WaitStatus reported %+v for the same stop", o.Name, o.Err, *w.status)
+				return
+			}
+			continue
+		}
+		if o.St.Stopped != w.status.Stopped || o.St.Closed != w.status.Closed || o.St.Err != w.status.Err {
+			r.Fail("wrong-status", "%s: WaitStatus reported %+v to one caller and %+v to another for the same stop", o.Name, *w.status, o.St)
+			return
+		}
+	}
 }
